@@ -477,11 +477,14 @@ func genM1(r *rand.Rand, p Profile, id string) Case {
 				continue
 			}
 			v0 := t.versions[r.Intn(len(t.versions)-1)]
+			if r.Intn(3) != 0 {
+				ops = append(ops, []string{"reopen", "fast=true"})
+			}
 			ops = append(ops, []string{"load", i64(v0)})
-			if r.Intn(2) == 0 {
+			if r.Intn(3) != 0 {
 				ops = append(ops, []string{"set", hx(g.key()), hx([]byte("uncommitted"))}, []string{"rm", hx(g.key())})
 			}
-			ops = append(ops, []string{"dvfrom", i64(v0 + 1)})
+			ops = append(ops, []string{"dvfrom", i64(v0 + 1)}, []string{"audit", "fast"})
 			if r.Intn(3) == 0 {
 				ops = append(ops, []string{"rollback"})
 			}
